@@ -248,6 +248,8 @@ class Interp:
         self.known_ne = {}
         self.iter_lens = {}
         self.path_types = {}        # types learnt from isinstance() forks
+        self.path_defaults = {}     # mutable parameter defaults, by node
+        self.default_objects = {}   # id(object) -> (function, source)
         self.global_over = {}       # (module, name) -> value written via
                                     # a ``global`` declaration on this path
         self.exact = True
@@ -613,7 +615,7 @@ class Interp:
             elif p in kwargs:
                 env[p] = kwargs.pop(p)
             elif defaults[i] is not None:
-                env[p] = self.eval_in_module(defaults[i], f, fr0)
+                env[p] = self.default_value(defaults[i], f, fr0)
             else:
                 raise self.raise_builtin('TypeError', 'missing argument ' + p)
         extra = list(args[len(params):])
@@ -625,13 +627,26 @@ class Interp:
             if p.arg in kwargs:
                 env[p.arg] = kwargs.pop(p.arg)
             elif d is not None:
-                env[p.arg] = self.eval_in_module(d, f, fr0)
+                env[p.arg] = self.default_value(d, f, fr0)
             else:
                 raise self.raise_builtin('TypeError', 'missing kw ' + p.arg)
         if a.kwarg:
             env[a.kwarg.arg] = DictV([(K(k), v) for k, v in kwargs.items()])
         elif kwargs:
             raise self.raise_builtin('TypeError', 'unexpected keyword')
+
+    def default_value(self, expr, f, fr):
+        """A parameter default is one object made when the function is
+        defined: every call that omits the argument gets that same object.
+        (Kept per explored path: a path starts with the definitions fresh.)"""
+        key = id(expr)
+        if key in self.path_defaults:
+            return self.path_defaults[key]
+        v = self.eval_in_module(expr, f, fr)
+        if isinstance(v, (ListV, DictV, SetV, Obj)):
+            self.path_defaults[key] = v
+            self.default_objects[id(v)] = (f.qualname, ast.unparse(expr))
+        return v
 
     def eval_in_module(self, expr, f, fr):
         return self.eval(expr, fr)
